@@ -16,7 +16,9 @@ def install():
     _installed[0] = True
     for name in ('get_synset_relations', 'get_sense_relations',
                  'get_sense_synset_relations'):
-        orig = getattr(core, name)
+        orig = getattr(core, name, None)
+        if orig is None:
+            continue      # helper renamed: no step budget for it (termination is then not decided)
 
         def wrapper(*a, __orig=orig, **kw):
             if _left[0] is not None:
